@@ -192,6 +192,15 @@ pub fn small(quick: bool) -> Vec<Slice> {
     v.push(Slice { extra_alpha: vec![], name: "size<=2/all-frames".into(), frames: gram::frames(true, true), bodies: Rc::new(upto2), len: if quick { 3 } else { 4 }, len4: 3, extra_rules: "" });
     let plain: Vec<Frame> = gram::frames(false, false).into_iter().filter(|f| (f.ws <= 1 && f.sdef == 0) || (f.ws == 0 && f.ty == 0) || !quick).collect();
     v.push(Slice { extra_alpha: vec![], name: "size3/plain-frames".into(), frames: plain, bodies: Rc::new(by[3].clone()), len: if quick { 3 } else { 4 }, len4: 3, extra_rules: "" });
+    v.push(Slice {
+        extra_alpha: vec!['!'],
+        name: "many-rules".into(),
+        frames: gram::frames(false, false).into_iter().filter(|f| f.sdef == 0 && f.ws <= 1 && f.ty == 0).collect(),
+        bodies: Rc::new(gram::many_rules_bodies(3)),
+        len: 3,
+        len4: 3,
+        extra_rules: gram::MANY_RULES_EXTRA,
+    });
     let redex: Vec<String> = gram::redex_bodies(if quick { 4 } else { 7 }).into_iter().map(|x| x.0).collect();
     v.push(Slice { extra_alpha: vec![], name: "redexes".into(), frames: gram::frames(false, false).into_iter().filter(|f| !quick || f.sdef == 0).collect(), bodies: Rc::new(redex), len: if quick { 3 } else { 4 }, len4: 3, extra_rules: gram::REDEX_EXTRA_RULES });
     v
